@@ -45,7 +45,7 @@ Qed.
 Lemma stepA_nodup : forall s t s', InvA s -> step s t = Some s' -> NoDup (afree s').
 Proof.
   intros s t s' IA H. pose proof (a_nodup _ IA) as Hnd. pose proof (a_rng _ IA) as Hrng.
-  step_cases H; simp; try assumption; try constructor.
+  step_cases H; pcfacts IA Hth Hpc; simp; try assumption; try constructor.
   all: try (rw_afree; inversion Hnd; assumption).
   all: try (match goal with Hi : hidx _ = Some ?n |- ~ In ?n _ => apply (Hrng _ _ Hi) end).
   all: try assumption.
@@ -54,7 +54,7 @@ Qed.
 Lemma stepA_free : forall s t s', InvA s -> step s t = Some s' -> forall x, In x (afree s') -> (x < anext s')%nat.
 Proof.
   intros s t s' IA H. pose proof (a_free _ IA) as Hfr. pose proof (a_rng _ IA) as Hrng.
-  step_cases H; simp; intros x Hx; try (apply Hfr; exact Hx); try (destruct Hx; fail).
+  step_cases H; pcfacts IA Hth Hpc; simp; intros x Hx; try (apply Hfr; exact Hx); try (destruct Hx; fail).
   all: try (rw_afree; apply Hfr; right; exact Hx).
   destruct Hx as [<-|Hx]; [|apply Hfr; exact Hx].
   match goal with Hi : hidx _ = Some ?n |- _ => apply (Hrng _ _ Hi) end.
